@@ -15,6 +15,8 @@ import (
 
 	sdk "github.com/cosmos/cosmos-sdk/types"
 	stakingtypes "github.com/cosmos/cosmos-sdk/x/staking/types"
+	"github.com/tellor-io/layer/utils"
+	disputetypes "github.com/tellor-io/layer/x/dispute/types"
 	minttypes "github.com/tellor-io/layer/x/mint/types"
 	oracletypes "github.com/tellor-io/layer/x/oracle/types"
 	reportertypes "github.com/tellor-io/layer/x/reporter/types"
@@ -351,6 +353,213 @@ func TestHistPayouts(t *testing.T) {
 			kind = "withdraw-insufficient"
 		}
 		out.Emit(Case{Coq: term, Kind: kind, Nontrivial: stats["SubmitValue/0"] >= 6 && stats["Tip/0"] >= 2, Key: fmt.Sprint(hs), Tags: tags,
+			Human: map[string]interface{}{"history_seed": hs, "ops": stats, "halted": halted}})
+	}
+}
+
+// runDisputeHistory: a history directed at the dispute paths (C02/C04/C05/C19): a reporter backed by
+// selectors with fractional stakes at one or two validators reports; its report is disputed (any
+// category, fully funded from balance or from stake, sometimes in two payments); the team and others vote;
+// the periods pass; the begin blocker tallies and executes; parties claim; sometimes a further round.
+func runDisputeHistory(t *testing.T, seed int64) (string, map[string]int, string) {
+	r := rand.New(rand.NewSource(seed))
+	nVals := 3
+	w := newWorld(t, r, nVals, 4)
+	lastWorld = w
+	w.focus = "dispute"
+	stats := map[string]int{}
+	var steps []string
+	do := func(name string, signer int, roles map[int]string, f func(ctx sdk.Context) error) opResult {
+		before := w.holdings()
+		res := w.deliver(name, signer, nil, f)
+		ds := diffHoldings(before, w.holdings(), signer, roles)
+		steps = append(steps, coqStep(res, w.snap(), ds))
+		stats[fmt.Sprintf("%s/%d", res.name, res.result)]++
+		return res
+	}
+	block := func(gap time.Duration, f func()) {
+		res := w.beginBlock(gap)
+		steps = append(steps, coqStep(res, w.snap(), nil))
+		stats[fmt.Sprintf("%s/%d", res.name, res.result)]++
+		if w.halted != "" {
+			return
+		}
+		if f != nil {
+			f()
+		}
+		res = w.endBlock()
+		steps = append(steps, coqStep(res, w.snap(), nil))
+		stats[fmt.Sprintf("%s/%d", res.name, res.result)]++
+	}
+	// selectors of reporter 0 with fractional stakes (set-up, before the recorded history)
+	for k := 0; k < 3; k++ {
+		a := nVals + k
+		amt := pick(r, bi(2_000_800), bi(1_998_400), bi(333_333), bi(1_000_001), bi(5*loyaPerTRB), bi(2_500_000), bi(int64(1_000_000+r.Intn(3_000_000))))
+		v := pick(r, 0, 0, 1, 2)
+		_, _ = w.stakingMS.Delegate(w.ctx, &stakingtypes.MsgDelegate{DelegatorAddress: w.accts[a].String(), ValidatorAddress: w.valOps[v].String(), Amount: w.coin(amt)})
+		if r.Intn(3) == 0 {
+			amt2 := pick(r, bi(1_000_003), bi(777_777), bi(2*loyaPerTRB))
+			_, _ = w.stakingMS.Delegate(w.ctx, &stakingtypes.MsgDelegate{DelegatorAddress: w.accts[a].String(), ValidatorAddress: w.valOps[(v+1)%nVals].String(), Amount: w.coin(amt2)})
+		}
+		if r.Intn(4) != 0 {
+			_, _ = w.reporterMS.SelectReporter(w.ctx, &reportertypes.MsgSelectReporter{SelectorAddress: w.accts[a].String(), ReporterAddress: w.accts[0].String()})
+		}
+	}
+	init := w.snap()
+	// a report by reporter 0 (and 1) on the scheduled query, aggregated
+	for b := 0; b < 4 && w.halted == ""; b++ {
+		block(time.Duration(1+r.Intn(3))*time.Second, func() {
+			qd := w.currentCycleQuery()
+			for _, rep := range []int{0, 1} {
+				rep := rep
+				do("SubmitValue", rep, nil, func(ctx sdk.Context) error {
+					_, err := w.oracleMS.SubmitValue(ctx, &oracletypes.MsgSubmitValue{Creator: w.accts[rep].String(), QueryData: qd, Value: w.randValue()})
+					if err == nil {
+						w.noteReport(ctx, utils.QueryIDFromData(qd), w.accts[rep])
+					}
+					return err
+				})
+			}
+		})
+	}
+	var mine []oracletypes.MicroReport
+	for _, x := range w.recent {
+		if x.Reporter == w.accts[0].String() {
+			mine = append(mine, x)
+		}
+	}
+	if len(mine) == 0 || w.halted != "" {
+		return fmt.Sprintf("Hist %s %s", init.coq(), clist(steps)), stats, w.halted
+	}
+	rep := pick(r, mine...)
+	cat := pick(r, disputetypes.Warning, disputetypes.Minor, disputetypes.Major)
+	pct := map[disputetypes.DisputeCategory]int64{disputetypes.Warning: 100, disputetypes.Minor: 20, disputetypes.Major: 1}[cat]
+	full := bquo(bmul(new(big.Int).SetUint64(rep.Power), bi(loyaPerTRB)), bi(pct))
+	proposer := pick(r, 1, nVals+3, w.team)
+	fromBond := proposer == 1 && r.Intn(2) == 0
+	first := full
+	if r.Intn(3) == 0 {
+		first = bquo(full, bi(int64(2+r.Intn(3))))
+	}
+	rounds := pick(r, 1, 1, 2, 3)
+	choice := pick(r, disputetypes.VoteEnum_VOTE_AGAINST, disputetypes.VoteEnum_VOTE_AGAINST, disputetypes.VoteEnum_VOTE_SUPPORT, disputetypes.VoteEnum_VOTE_INVALID)
+	var id uint64
+	propose := func(fee *big.Int, bond bool) {
+		roles := w.backersOf(rep)
+		if bond {
+			for k, v := range w.selectorsOf(proposer) {
+				if roles[k] == "" {
+					roles[k] = v
+				}
+			}
+		}
+		res := do("ProposeDispute", proposer, roles, func(ctx sdk.Context) error {
+			_, err := w.disputeMS.ProposeDispute(ctx, &disputetypes.MsgProposeDispute{Creator: w.accts[proposer].String(), Report: &rep, DisputeCategory: cat, Fee: w.coin(fee), PayFromBond: bond})
+			return err
+		})
+		if res.result == 0 {
+			ds, _ := w.s.Disputekeeper.GetOpenDisputes(w.ctx)
+			for _, d := range ds {
+				if d > id {
+					id = d
+				}
+			}
+			w.disputes = ds
+		}
+	}
+	for round := 1; round <= rounds && w.halted == ""; round++ {
+		block(time.Duration(1+r.Intn(5))*time.Second, func() {
+			if round == 1 {
+				propose(first, fromBond)
+				if first.Cmp(full) < 0 && r.Intn(4) != 0 {
+					payer := pick(r, proposer, nVals+3)
+					roles := w.backersOf(rep)
+					do("AddFeeToDispute", payer, roles, func(ctx sdk.Context) error {
+						_, err := w.disputeMS.AddFeeToDispute(ctx, &disputetypes.MsgAddFeeToDispute{Creator: w.accts[payer].String(), DisputeId: id, Amount: w.coin(bsub(full, first)), PayFromBond: false})
+						return err
+					})
+				}
+			} else {
+				propose(full, false)
+			}
+		})
+		// votes: in the last round the team decides; earlier rounds stay without quorum
+		block(time.Duration(1+r.Intn(3600))*time.Second, func() {
+			voters := []int{nVals + 3, nVals, 1}
+			if round == rounds {
+				voters = append(voters, w.team)
+			}
+			for _, v := range voters {
+				if v != w.team && r.Intn(2) == 0 {
+					continue
+				}
+				v := v
+				c := choice
+				if v != w.team && r.Intn(3) == 0 {
+					c = pick(r, disputetypes.VoteEnum_VOTE_AGAINST, disputetypes.VoteEnum_VOTE_SUPPORT, disputetypes.VoteEnum_VOTE_INVALID)
+				}
+				do("Vote", v, nil, func(ctx sdk.Context) error {
+					_, err := w.disputeMS.Vote(ctx, &disputetypes.MsgVote{Voter: w.accts[v].String(), Id: id, Vote: c})
+					return err
+				})
+			}
+		})
+		// the vote period (2 days) ends: tally; the next round must come before the 3-day end of the dispute
+		block(48*time.Hour+time.Duration(r.Intn(3))*time.Second, nil)
+		if round < rounds {
+			continue
+		}
+		block(pick(r, 12*time.Hour, 24*time.Hour+time.Second, 72*time.Hour+time.Second), nil)
+		block(pick(r, 24*time.Hour, 72*time.Hour+time.Second), nil)
+	}
+	// claims by everybody, twice
+	for pass := 0; pass < 2 && w.halted == ""; pass++ {
+		block(time.Duration(1+r.Intn(5))*time.Second, func() {
+			for _, a := range r.Perm(len(w.accts)) {
+				a := a
+				for _, d := range w.allDisputeIDs(id) {
+					d := d
+					do("WithdrawFeeRefund", a, nil, func(ctx sdk.Context) error {
+						_, err := w.disputeMS.WithdrawFeeRefund(ctx, &disputetypes.MsgWithdrawFeeRefund{CallerAddress: w.accts[a].String(), PayerAddress: w.accts[a].String(), Id: d})
+						return err
+					})
+					do("ClaimReward", a, nil, func(ctx sdk.Context) error {
+						_, err := w.disputeMS.ClaimReward(ctx, &disputetypes.MsgClaimReward{CallerAddress: w.accts[a].String(), DisputeId: d})
+						return err
+					})
+				}
+			}
+			do("UnjailReporter", 0, nil, func(ctx sdk.Context) error {
+				_, err := w.reporterMS.UnjailReporter(ctx, &reportertypes.MsgUnjailReporter{ReporterAddress: w.accts[0].String()})
+				return err
+			})
+		})
+	}
+	return fmt.Sprintf("Hist %s %s", init.coq(), clist(steps)), stats, w.halted
+}
+
+// ids 1..max (the rounds of one lineage take consecutive ids in these histories)
+func (w *World) allDisputeIDs(max uint64) []uint64 {
+	var ids []uint64
+	for i := uint64(1); i <= max; i++ {
+		ids = append(ids, i)
+	}
+	return ids
+}
+
+func TestHistDisputes(t *testing.T) {
+	out := newOut(t, "hist_disputes")
+	defer out.Close()
+	n := count(40, 1000)
+	base := seed()*9_000_011 + 29
+	for i := 0; i < n; i++ {
+		hs := base + int64(i)
+		term, stats, halted := runDisputeHistory(t, hs)
+		kind := "completed"
+		if halted != "" {
+			kind = "halted"
+		}
+		out.Emit(Case{Coq: term, Kind: kind, Nontrivial: stats["ProposeDispute/0"] >= 1 && stats["Vote/0"] >= 1, Key: fmt.Sprint(hs),
 			Human: map[string]interface{}{"history_seed": hs, "ops": stats, "halted": halted}})
 	}
 }
